@@ -624,9 +624,43 @@ def run(ctx: Any, prog: Program) -> None:
             if isinstance(st, ast.Assign) and any(isinstance(t, ast.Name) and t.id in ('__copy__', '__deepcopy__') for t in st.targets):
                 ctx.check('C05.G3', isinstance(st.value, ast.Name) and st.value.id == 'copy', mt, st, 'alias must point at copy()', func=cname, text=U(st))
 
+    # memoisation: a function whose results are remembered hands the *same* object to every caller with equal arguments - harmless for
+    # numbers, tuples and frozen objects, an alias between "independent" results when the object is a mutable Vec/Angle/Matrix
+    MEMO = ('lru_cache', 'cache', 'cached_property', 'memoize', 'memoise')
+    n_memo = 0
+    for qual, fns in mt.all_funcs().items():
+        for fn in fns:
+            decs = [d.func if isinstance(d, ast.Call) else d for d in fn.decorator_list]
+            if not any((dotted(d) or '').split('.')[-1] in MEMO for d in decs):
+                continue
+            n_memo += 1
+            params = {a.arg for a in fn.args.posonlyargs + fn.args.args + fn.args.kwonlyargs}
+            for r in [x for x in walk_no_nested(fn) if isinstance(x, ast.Return) and x.value is not None]:
+                built = [c for c in ast.walk(r.value) if isinstance(c, ast.Call)]
+                hazard = None
+                for c in built:
+                    f_ = c.func
+                    nm = (dotted(f_) or '').split('.')[0] if not isinstance(f_, ast.Call) else 'type(...)'
+                    base_nm = (dotted(f_) or '')
+                    if isinstance(f_, ast.Call) or (isinstance(f_, ast.Name) and (f_.id in params or f_.id.replace('Py_', '').replace('Cy_', '') in MUTABLE + ('VecBase', 'AngleBase', 'MatrixBase'))) \
+                            or (isinstance(f_, ast.Attribute) and isinstance(f_.value, ast.Name) and (f_.value.id in params or f_.value.id.replace('Py_', '') in MUTABLE) and f_.attr not in ('join', 'format')) \
+                            or (isinstance(f_, ast.Attribute) and f_.attr in ('copy', 'thaw')):
+                        hazard = c
+                        break
+                if hazard is not None and isinstance(hazard.func, ast.Name) and hazard.func.id in params:
+                    # the class comes from the caller: harmless when every call site passes a frozen class by name
+                    pos = [a.arg for a in fn.args.posonlyargs + fn.args.args].index(hazard.func.id) if hazard.func.id in [a.arg for a in fn.args.posonlyargs + fn.args.args] else None
+                    sites = [c for c in ast.walk(mt.tree) if isinstance(c, ast.Call) and (dotted(c.func) or '').split('.')[-1] == fn.name]
+                    passed = [(c.args[pos] if pos is not None and pos < len(c.args) else next((k.value for k in c.keywords if k.arg == hazard.func.id), None)) for c in sites]
+                    if sites and all(isinstance(a, ast.Name) and a.id.replace('Py_', '') in FROZEN for a in passed):
+                        hazard = None
+                ctx.check('C05.G3', hazard is None, mt, r, f'{qual} is memoised ({", ".join(U(d) for d in fn.decorator_list)}) and returns `{U(hazard) if hazard is not None else ""}`, which can be a mutable '
+                          'Vec/Angle/Matrix: every caller with equal arguments gets the same object, so changing one result changes the others', func=qual, text=f'{qual}: memoised result is not a mutable object')
+    ctx.check('C05.G3', True, mt, mt.tree, f'{n_memo} memoised function(s) in math.py examined', func='<module>', text='memoised functions examined')
+
     # ---- G4 -----------------------------------------------------------------------------------------
     ff = mt.func('format_float')
-    check_format_float(ctx, mt, ff)
+    check_format_float(ctx, mt, ff, prog)
     # Cython sibling
     cf = pyx.func('_format_float')
     lines = [ln.text for ln in cf.body]
@@ -683,7 +717,7 @@ def run(ctx: Any, prog: Program) -> None:
                   func=f'{cname}.{mname}', text=f'{cname}.{mname} components')
 
 
-def check_format_float(ctx: Any, mod: Any, ff: Any) -> None:
+def check_format_float(ctx: Any, mod: Any, ff: Any, prog: Any) -> None:
     """G4 on the Python format_float."""
     fmt_exprs = []
     for n in walk_no_nested(ff):
@@ -726,6 +760,29 @@ def check_format_float(ctx: Any, mod: Any, ff: Any) -> None:
                     defs.setdefault(t.id, []).append(n.value)
 
     visiting: Set[str] = set()
+    def_stmt: Dict[int, ast.AST] = {}
+    for n in walk_no_nested(ff):
+        if isinstance(n, ast.Assign):
+            def_stmt[id(n.value)] = n
+
+    def reaches(d: ast.AST, use: Optional[ast.AST]) -> bool:
+        """False when the definition sits in a branch that always leaves the function and the use is outside that branch"""
+        st = def_stmt.get(id(d))
+        if st is None or use is None:
+            return True
+        child: ast.AST = st
+        par = mod.parents.get(st)
+        while par is not None and par is not ff:
+            if isinstance(par, ast.If):
+                blk = par.body if child in par.body else par.orelse
+                if blk and isinstance(blk[-1], (ast.Return, ast.Raise)):
+                    inside = any(x is use for b in blk for x in ast.walk(b))
+                    if not inside:
+                        return False
+            child = par
+            par = mod.parents.get(par)
+        return True
+    use_at: List[Optional[ast.AST]] = [None]
 
     def derives(v: ast.AST, depth: int = 0) -> bool:
         if depth > 12:
@@ -741,7 +798,7 @@ def check_format_float(ctx: Any, mod: Any, ff: Any) -> None:
                 return False
             visiting.add(v.id)
             try:
-                return all(derives(d, depth + 1) for d in defs[v.id])
+                return all(derives(d, depth + 1) for d in defs[v.id] if reaches(d, use_at[0]))
             finally:
                 visiting.discard(v.id)
         if isinstance(v, ast.Call) and isinstance(v.func, ast.Attribute) and v.func.attr in ('rstrip', 'lstrip', 'strip', 'replace', 'removesuffix'):
@@ -750,8 +807,31 @@ def check_format_float(ctx: Any, mod: Any, ff: Any) -> None:
             return derives(v.body, depth + 1) and derives(v.orelse, depth + 1)
         return False
 
+    def shortest_repr(v: Optional[ast.AST], depth: int = 0) -> Optional[ast.AST]:
+        """the repr()/str()/{x!r}/{x} conversion of the number that the returned text derives from, if any"""
+        if v is None or depth > 8:
+            return None
+        for n in ast.walk(v):
+            if isinstance(n, ast.Call) and dotted(n.func) in ('repr', 'str') and len(n.args) == 1:
+                a = n.args[0]
+                if any(isinstance(x, ast.Name) and x.id == xname for x in ast.walk(a)) and not (isinstance(a, ast.Call) and dotted(a.func) in ('round', 'int', 'math.floor', 'math.trunc', 'math.ceil') and len(a.args) == 1):
+                    return n
+            if isinstance(n, ast.FormattedValue) and n.format_spec is None and dotted(n.value) == xname:
+                return n
+            if isinstance(n, ast.Name) and n.id != xname and n.id not in visiting:
+                visiting.add(n.id)
+                try:
+                    for d in defs.get(n.id, []):
+                        h = shortest_repr(d, depth + 1)
+                        if h is not None:
+                            return h
+                finally:
+                    visiting.discard(n.id)
+        return None
+
     from engine.fold import Folder, FoldError
     for r in [n for n in walk_no_nested(ff) if isinstance(n, ast.Return)]:
+        use_at[0] = r
         if r.value is not None and derives(r.value):
             ctx.check('C05.G4', True, mod, r, 'returned text derives from the fixed-point conversion', func='format_float', text='return ' + U(r.value)[:50])
             continue
@@ -794,6 +874,23 @@ def check_format_float(ctx: Any, mod: Any, ff: Any) -> None:
                        'are written identically, so the text no longer parses back within 0.5e-places') if not okall else 'tolerance within half a unit in the last place'
         if not guards:
             verdict = False
+        if verdict is None and shortest_repr(r.value) is not None:
+            # repr()/str() of a float is its shortest round-trip form: exponent notation from 1e16 up (and below 1e-4).  A path that hands this
+            # out is only plain decimal when its guards bound |x| from above.
+            bounded = False
+            for g in guards:
+                if isinstance(g, ast.Compare) and len(g.ops) == 1 and isinstance(g.ops[0], (ast.Lt, ast.LtE)) and isinstance(g.left, ast.Call) and dotted(g.left.func) == 'abs' \
+                        and g.left.args and dotted(g.left.args[0]) == xname:
+                    try:
+                        lim = Folder(prog, mod).fold(g.comparators[0], {})
+                    except FoldError:
+                        continue
+                    if isinstance(lim, (int, float)) and lim <= 1e16:
+                        bounded = True
+            if not bounded:
+                sr = shortest_repr(r.value)
+                verdict, why = False, (f'the text comes from `{U(sr)}`, the shortest round-trip form of a float, which is exponent notation for |x| >= 1e16 (`1e+16`); the guards '
+                                       f'({", ".join("`" + U(g) + "`" for g in guards)}) do not bound |x| from above, so huge components are not written as plain decimals')
         if verdict is None:
             raise AnalysisError(f'format_float: return `{U(r.value) if r.value else None}` does not derive from the fixed-point conversion and its guard is not an enumerated idiom')
         ctx.check('C05.G4', verdict, mod, r, f'alternative text path `return {U(r.value) if r.value else None}`: {why}', func='format_float',
@@ -802,6 +899,9 @@ def check_format_float(ctx: Any, mod: Any, ff: Any) -> None:
 
 
 MUTANTS = [
+    {'id': 'from_str_memoised', 'file': 'math.py', 'find': "def to_matrix(value: Union['AnyAngle', 'AnyMatrix', 'AnyVec', None]) -> 'Matrix | FrozenMatrix':", 'replace': "@__import__('functools').lru_cache(maxsize=64)\ndef _parse_cached(cls: Any, val: str, x: float, y: float, z: float) -> Any:\n    x, y, z = Py_parse_vec_str(val, x, y, z)\n    return cls(x, y, z)\n\n\ndef to_matrix(value: Union['AnyAngle', 'AnyMatrix', 'AnyVec', None]) -> 'Matrix | FrozenMatrix':", 'extra': [{'file': 'math.py', 'find': "        x, y, z = Py_parse_vec_str(val, x, y, z)\n        return cls(x, y, z)", 'replace': "        if type(val) is str:\n            return _parse_cached(cls, val, x, y, z)\n        x, y, z = Py_parse_vec_str(val, x, y, z)\n        return cls(x, y, z)"}], 'expect': 'C05.G3'},
+    {'id': 'ok_parse_numbers_memoised', 'file': 'math.py', 'find': "def to_matrix(value: Union['AnyAngle', 'AnyMatrix', 'AnyVec', None]) -> 'Matrix | FrozenMatrix':", 'replace': "@__import__('functools').lru_cache(maxsize=64)\ndef _parse_cached(val: str, x: float, y: float, z: float) -> 'tuple[float, float, float]':\n    return Py_parse_vec_str(val, x, y, z)\n\n\ndef to_matrix(value: Union['AnyAngle', 'AnyMatrix', 'AnyVec', None]) -> 'Matrix | FrozenMatrix':", 'extra': [{'file': 'math.py', 'find': "        x, y, z = Py_parse_vec_str(val, x, y, z)\n        return cls(x, y, z)", 'replace': "        if type(val) is str:\n            x, y, z = _parse_cached(val, x, y, z)\n            return cls(x, y, z)\n        x, y, z = Py_parse_vec_str(val, x, y, z)\n        return cls(x, y, z)"}], 'expect': None},
+    {'id': 'format_float_repr_above_2_53', 'file': 'math.py', 'find': "    result = f'{x:.{places}f}'\n", 'replace': "    if abs(x) >= 2.0 ** 53:\n        result = repr(x)\n        return result[:-2] if result.endswith('.0') else result\n    result = f'{x:.{places}f}'\n", 'expect': 'C05.G4'},
     {'id': 'vec_str_through_format_spec', 'file': 'math.py', 'find': "        return f'{format_float(self._x)} {format_float(self._y)} {format_float(self._z)}'\n\n    def __format__(self, format_spec: str) -> str:", 'replace': "        return self.__format__('.6f')\n\n    def __format__(self, format_spec: str) -> str:", 'expect': 'C05.G5'},
     {'id': 'imul_range_guard_inclusive', 'file': 'math.py', 'find': "            self._pitch = self._pitch * other % 360.0 % 360.0\n            self._yaw = self._yaw * other % 360.0 % 360.0\n            self._roll = self._roll * other % 360.0 % 360.0\n            return self", 'replace': "            pitch = self._pitch * other\n            yaw = self._yaw * other\n            roll = self._roll * other\n            if min(pitch, yaw, roll) < 0.0 or max(pitch, yaw, roll) >= 360.0:\n                pitch = pitch % 360.0 % 360.0\n                yaw = yaw % 360.0 % 360.0\n                roll = roll % 360.0 % 360.0\n            self._pitch = pitch\n            self._yaw = yaw\n            self._roll = roll\n            return self", 'expect': None},
     {'id': 'imul_normalised_through_locals', 'file': 'math.py', 'find': "            self._pitch = self._pitch * other % 360.0 % 360.0\n            self._yaw = self._yaw * other % 360.0 % 360.0\n            self._roll = self._roll * other % 360.0 % 360.0\n            return self", 'replace': "            pitch = self._pitch * other % 360.0 % 360.0\n            yaw = self._yaw * other % 360.0 % 360.0\n            roll = self._roll * other % 360.0 % 360.0\n            self._pitch = pitch\n            self._yaw = yaw\n            self._roll = roll\n            return self", 'expect': None},
